@@ -189,7 +189,21 @@ def _data_only_equal(sim, a, b):
   ign = {}
   for t in dv.tables.values():
     ign[t.tableId] = [c.colId for c in t.cols.values() if c.isFormula]
-  return not eq.diff(a, b, ignore_cols=ign)
+  if eq.diff(a, b, ignore_cols=ign):
+    return False
+  # ... and "agree" is meant strictly here: 5 and 5.0 are observably equal, but the engine treats a
+  # float in an Int column as alt text, so formula values may legitimately follow from it.
+  for tid, td in b.items():
+    if tid not in a:
+      return False
+    skip = set(ign.get(tid, ()))
+    for c, vals in td[3].items():
+      if c in skip or c not in a[tid][3]:
+        continue
+      for x, y in zip(a[tid][3][c], vals):
+        if type(x) is not type(y) and isinstance(x, (int, float)) and isinstance(y, (int, float)):
+          return False
+  return True
 
 
 class UndoRedoProfile(HistoryProfile):
